@@ -216,6 +216,73 @@ pub mod verif_hdr {
     }
 }
 
+/// Verification hook (add-only, compiled only with `--cfg sozu_verif`): runs
+/// the crate-private `H2BlockConverter` DATA path and `next_stream_id` with
+/// plain values. No production code path uses this module.
+#[cfg(sozu_verif)]
+pub mod verif_h2fc {
+    use kawa::{Block, Buffer, Chunk, Kawa, Kind, OutBlock, SliceBuffer, Store};
+
+    /// `kawa.prepare(&mut H2BlockConverter{window, max_frame_size, ..})` over DATA
+    /// chunks of the given sizes. Returns the bytes pushed to `kawa.out`, the
+    /// sizes of the chunks left in `kawa.blocks`, and the converter's window.
+    pub fn convert_chunks(
+        window: i32,
+        max_frame_size: usize,
+        stream_id: u32,
+        chunks: &[usize],
+        incremental_mode: bool,
+        incremental_peer_count: usize,
+    ) -> (Vec<u8>, Vec<usize>, i32) {
+        let mut encoder = loona_hpack::Encoder::new();
+        let mut storage = vec![0u8; 16];
+        let mut kawa = Kawa::new(Kind::Response, Buffer::new(SliceBuffer(&mut storage)));
+        for (i, n) in chunks.iter().enumerate() {
+            kawa.blocks.push_back(Block::Chunk(Chunk {
+                data: Store::from_vec(vec![b'a' + (i % 26) as u8; *n]),
+            }));
+        }
+        let mut converter = super::converter::H2BlockConverter {
+            max_frame_size,
+            window,
+            stream_id,
+            encoder: &mut encoder,
+            out: Vec::new(),
+            scheme: b"https",
+            lowercase_buf: Vec::new(),
+            cookie_buf: Vec::new(),
+            position_is_client: false,
+            incremental_mode,
+            incremental_peer_count,
+            pending_table_size_update: None,
+            size_update_emitted: false,
+            pending_oversized_abort: false,
+        };
+        kawa.prepare(&mut converter);
+        let window_after = converter.window;
+        let mut out = Vec::new();
+        for block in kawa.out.iter() {
+            if let OutBlock::Store(store) = block {
+                out.extend_from_slice(store.data(kawa.storage.buffer()));
+            }
+        }
+        let left = kawa
+            .blocks
+            .iter()
+            .map(|b| match b {
+                Block::Chunk(Chunk { data }) => data.len(),
+                _ => usize::MAX,
+            })
+            .collect();
+        (out, left, window_after)
+    }
+
+    /// `h2::next_stream_id`
+    pub fn next_stream_id(last_stream_id: u32, is_client: bool) -> Option<(u32, u32)> {
+        super::h2::next_stream_id(last_stream_id, is_client)
+    }
+}
+
 use crate::metrics::names;
 use crate::{
     BackendConnectionError, FrontendFromRequestError, L7ListenerHandler, L7Proxy, ListenerHandler,
